@@ -78,6 +78,8 @@ def run(ctx, tier):
                    "url_aggregator's getters differ from ada::url's")
     ctx.rule("W9", "(shared with C10.H9) both IPv6 parsers move the pieces behind '::' from the last one down (the loop's form may "
                    "differ between the twins and is left out of W5)")
+    ctx.rule("W10", "where the parser sets url's host to base's host, the aggregator hands the base's host text to a function that can "
+                     "leave the url without authority (a null host stays null, as in ada::url's optional copy)")
     ctx.rule("W8", "the host parsers of the two types send the same byte values down the IDNA (unicode::to_ascii) route")
     ctx.rule("W6", "the setters of the two URL types normalise their input by the same steps in the same order")
     ctx.rule("W1", "twin implementations have the same validation skeleton")
@@ -421,8 +423,89 @@ def check_state_writes_vs_standard(ctx, fx, rule):
                       nontrivial=bool(want))
     ctx.floor(rule, n, 38, "(storing instantiation, state) pairs compared with the Standard's per-state writes")
 
+def _forces_authority(fx, g, depth=3, seen=frozenset()):
+    """every entry->exit path of g calls add_authority_slashes_if_needed (itself or through a callee all of whose paths do)"""
+    cut = set()
+    for b in g["blocks"]:
+        for st in b["stmts"]:
+            for n in X.stmt_nodes(st):
+                if n.get("k") != "call":
+                    continue
+                q = n.get("qname") or ""
+                if q == "ada::url_aggregator::add_authority_slashes_if_needed":
+                    cut.add(b["id"])
+                elif q.startswith("ada::url_aggregator::") and depth > 0 and q not in seen:
+                    hs = fx.fns(q, must=False)
+                    if hs and all(h.get("blocks") and _forces_authority(fx, h, depth - 1, seen | {q}) for h in hs):
+                        cut.add(b["id"])
+    blk = {b["id"]: b for b in g["blocks"]}
+    seen_b, stack = set(), [g["entry"]]
+    while stack:
+        x = stack.pop()
+        if x in seen_b or x in cut:
+            continue
+        seen_b.add(x)
+        if x == g["exit"]:
+            return False
+        stack += [e["to"] for e in blk[x]["succ"] if not e.get("pruned")]
+    return True
+
+
+def check_base_host_copy(ctx, fx, rule):
+    """W10.  "Set url's host to base's host" (relative, relative slash, file, file slash states): ada::url copies the optional,
+    so a null host stays null.  url_aggregator is handed the base's host as text, where null and empty both read "": the
+    function that receives it must be able to leave the url without authority (a function that always inserts `//` turns
+    the base's null host into an empty one: foo:/a + /c would give foo:///c in one type and foo:/c in the other)."""
+    from lib.loops import dominators
+    n = 0
+    for f in fx.fns("ada::parser::parse_url_impl"):
+        tag = SM.inst_tag(f)
+        if not tag.startswith("url_aggregator"):
+            continue
+        dom = None
+        blk = {b["id"]: b for b in f["blocks"]}
+        m = SM.Machine(fx, f)
+        # only the relative and relative-slash states can see a base whose host is null: in the file states the base is a
+        # file URL, whose host is never null
+        may_be_null = set()
+        for stname in ("RELATIVE_SCHEME", "RELATIVE_SLASH"):
+            if stname not in m.region:
+                ctx.broken("%s: state %s not found in parse_url_impl<%s>" % (rule, stname, tag))
+            reg = set(m.region[stname])
+            for y in m.fallthrough.get(stname, ()):
+                reg -= m.region[y]
+            may_be_null |= reg
+        for nd, st, b in C.all_nodes(f):
+            if nd.get("k") != "call" or not (nd.get("qname") or "").startswith("ada::url_aggregator::"):
+                continue
+            if b["id"] not in may_be_null:
+                continue
+            if not any(isinstance(a, dict) and any(m.get("k") == "call" and m.get("name") in ("get_hostname", "get_host")
+                                                   and "base_url" in X.show(m.get("recv")) for m in X.walk(a))
+                       for a in nd.get("args", [])):
+                continue
+            n += 1
+            gs = fx.fns(nd["qname"], must=False)
+            forcing = bool(gs) and all(g.get("blocks") and _forces_authority(fx, g) for g in gs)
+            guarded = False
+            if forcing:
+                if dom is None:
+                    dom = dominators(f)[0]
+                for d in dom.get(b["id"], ()):
+                    c = C.term_cond(blk[d])
+                    if c is not None and d != b["id"] and any(w in X.show(c) for w in ("has_hostname", "has_authority", "get_hostname().empty", "get_host().empty", "host.has_value")):
+                        guarded = True
+            ctx.check(rule, "parse_url_impl<%s>: base host handed to %s" % (tag, nd["qname"].split("::")[-1]), not forcing or guarded,
+                      "can leave the url without authority",
+                      "the base's host text is passed to %s, every path of which inserts the authority slashes: a base without "
+                      "host (foo:/a) gives an empty host in url_aggregator where ada::url keeps it null"
+                      % nd["qname"].split("::")[-1], where=st.get("loc", "").replace("/repo/", ""))
+    ctx.floor(rule, n, 2, "places in the relative / relative slash states where the aggregator parser receives the base's host")
+
+
 def check(ctx, fx):
     from rules import c04_route
+    check_base_host_copy(ctx, fx, "W10")
     c04_route.check(ctx, fx, "W8")
     from rules import c10 as _c10
     _c10.check_ipv6_move(ctx, fx, "W9")
